@@ -120,7 +120,8 @@ impl<F> Receiving<F> {
                 waker.wake();
                 *self = Self::Rcvd(frame);
             }
-            _ => (),
+            // already received, read or reset: keep that state (`take` left `Pending` behind)
+            other => *self = other,
         }
     }
 
